@@ -20,7 +20,7 @@ var HostileConsts = []string{
 }
 
 // HostileToks are reference tokens for loose patch paths.
-var HostileToks = []string{"", "a", "b", "0", "1", "-", "-1", "-2", "+1", "01", "-0", "~0", "~1", "~", "~2", "x/y", "9999", "10000", "99999999999999999999", "é", " ", "c", "d"}
+var HostileToks = []string{"", "a", "b", "0", "1", "-", "-1", "-2", "+1", "01", "-0", "~0", "~1", "~", "~2", "x/y", "9999", "10000", "99999999999999999999", "é", " ", "c", "d", "-9223372036854775808", "9223372036854775807", "-9223372036854775807", "-2147483649", "4294967296", "\u0663", "\uff11\uff12"}
 
 // Deep returns a text nested n levels: kind 0 arrays, 1 objects, 2 alternating,
 // 3 arrays with a sibling element at every level, 4 objects with a sibling member at every level.
